@@ -420,7 +420,15 @@ def pmap(fn, items, init=None, initargs=(), jobs=None, chunksize=1):
         return [fn(st, it) for it in items]
     ctx = mp.get_context("fork")
     with ctx.Pool(jobs, initializer=_worker_init, initargs=(init, initargs)) as pool:
-        return pool.map(_Call(fn), items, chunksize)
+        outcomes = pool.map(_Call(fn), items, chunksize)
+    failed = [o[1] for o in outcomes if o[0] == "err"]
+    good = [o[1] for o in outcomes if o[0] == "ok"]
+    if failed:
+        # what the other items observed is kept (a violation seen elsewhere stays a violation)
+        exc = failed[0]
+        exc.partial = good
+        raise exc
+    return good
 
 
 class _Call:
@@ -429,11 +437,11 @@ class _Call:
 
     def __call__(self, item):
         try:
-            return self.fn(_WSTATE, item)
-        except (HarnessDied, OpPanicked):
-            raise
+            return ("ok", self.fn(_WSTATE, item))
+        except (HarnessDied, OpPanicked) as e:
+            return ("err", e)
         except Exception:
-            raise RuntimeError("worker failed on item %r:\n%s" % (str(item)[:200], traceback.format_exc()))
+            return ("err", RuntimeError("worker failed on item %r:\n%s" % (str(item)[:200], traceback.format_exc())))
 
 
 def rng_for(seed, *salt):
